@@ -242,11 +242,14 @@ def run(ctx):
     if ctx.anchor(PCB_ is not None, DEC + 'parse_compressed'):
         news = [(bb, t) for bb, t in PCB_.calls() if 'flate2' in (callee_of(t)[0] or '') and (callee_of(t)[0] or '').endswith('::new')]
         n_cr = 0
+        # the (remainder, term) pairs handed back: the payload of every `Ok(..)` assigned to the return slot
+        res_pairs = []
         for bb, j, st in PCB_.stmts():
-            if not (st['k'] == '=' and st['rv']['k'] == 'agg' and st['rv'].get('ak') == 'tuple' and len(st['rv']['ops']) == 2):
-                continue
-            if not (0 in PCB_.derived_locals([st['pl']['l']])):
-                continue
+            if st['k'] == '=' and st['pl']['l'] == 0 and not st['pl'].get('p') and st['rv']['k'] == 'agg' and st['rv'].get('var') == 'Ok' and st['rv'].get('ops'):
+                o_ = PCB_.origin(st['rv']['ops'][0], at=(bb, j))
+                if o_[0] == 'agg' and o_[1].get('ak') == 'tuple' and len(o_[1]['ops']) == 2:
+                    res_pairs.append((o_[2], {'k': '=', 'rv': o_[1], 'ln': st.get('ln')}))
+        for bb, st in res_pairs:
             c = _cn(PCB_, st['rv']['ops'][0])
             n_cr += 1
             where = ctx.where(PCB_, ln=st['ln'])
